@@ -4,3 +4,6 @@ package rpc
 
 // verifWrapTransport is the identity without the verif build tag.
 func verifWrapTransport(t Transport) Transport { return t }
+
+// verifSync does nothing without the verif build tag.
+func verifSync(c *Conn, what string) {}
